@@ -496,3 +496,33 @@ fn deep_expression_nesting_is_an_error_not_a_crash() {
     // dropping a 100k-deep Box chain recurses too: leak it
     std::mem::forget(prog);
 }
+
+#[test]
+fn floor_division_is_luau_only() {
+    let prog = vec![ret(vec![bin(BinOp::IDiv, n(7.0), n(2.0))])];
+    assert_eq!(go(prog.clone(), Dialect::Lua51), Outcome::Error { trace: vec![], class: "runtime".into() });
+    assert_eq!(go(prog, Dialect::Luau), Outcome::Done { trace: vec![], ret: vec![num_snap(3.0)] });
+}
+
+#[test]
+fn require_from_chunk_follows_the_defining_chunk() {
+    // lib: return function() return require("./data") end      -- called from main, resolves from lib
+    let lib = Block::new(vec![ret(vec![func(&[], false, vec![ret(vec![call(nm("require"), vec![s("./data")])])])])]);
+    let mut host = Host { lib: std::rc::Rc::new(lib), bad: std::rc::Rc::new(Block::new(vec![])), log: vec![] };
+    let main = Block::new(vec![
+        local(&["f"], vec![call(nm("require"), vec![s("./lib")])]),
+        local(&["d"], vec![call(nm("f"), vec![])]),
+        ret(vec![call(nm("type"), vec![nm("d")]), call(nm("pcall"), vec![nm("require"), s("./bad")])]),
+    ]);
+    let out = run_with_require_isolated(&main, &cfg(Dialect::Lua51), &mut host, "main.lua");
+    assert_eq!(out, Outcome::Done { trace: vec![], ret: vec!["\"table\"".into(), "false".into(), "\"<require error>\"".into()] });
+    assert_eq!(host.log[1], ("./data".to_string(), "lib.lua".to_string()));
+    assert_eq!(host.log[2], ("./bad".to_string(), "main.lua".to_string()));
+}
+
+#[test]
+fn run_debug_reports_the_message() {
+    let (out, msg) = run_debug(&Block::new(vec![Stmt::Call(call(nm("nope"), vec![]))]), &cfg(Dialect::Lua51));
+    assert_eq!(out, Outcome::Error { trace: vec![], class: "runtime".into() });
+    assert_eq!(msg.as_deref(), Some("attempt to call a nil value"));
+}
